@@ -201,7 +201,10 @@ def run(ctx):
             if Y["smoke"] != "1" or Y["wl_bad"] != "-":
                 probs.append("workload wrong in incarnation %d: %s" % (cyc, "smoke" if Y["smoke"] != "1" else Y["wl_bad"]))
             if Y["ri_ok"] != "1":
-                probs.append("a redundant qthread_initialize changed the runtime")
+                why = int(Y.get("ri_why", "0"))
+                probs.append("a redundant qthread_initialize changed the runtime: " + ", ".join(
+                    n for b, n in ((1, "error return"), (2, "the call allocated memory"), (4, "qlib replaced"), (8, "new OS threads"),
+                                   (16, "another atexit registration"), (32, "shepherd/worker counts changed")) if why & b))
             if Y["rf_ok"] != "1" or Z["post_ok"] != "1":
                 probs.append("a redundant qthread_finalize (task / foreign pthread / after finalize) was not harmless")
             if Z["lists_empty"] != "1" or Z["qlib_null"] != "1":
